@@ -16,7 +16,7 @@ RULE = (
     '(new properties, redefinition of an existing property, private macros, macros overriding token macros, general '
     'macros, a macro of another built-in profile, and the private macro of another custom profile), re-adding removed '
     'built-in profiles, removeProfile of custom / built-in / unknown names, removeProfile(all=True), defaultProfiles = '
-    'None | name | list. A reference model (ordered list of (name, raw properties, macros); macro environment = token '
+    'None | name | list (names of registered profiles, of profiles registered only later, of removed ones). A reference model (ordered list of (name, raw properties, macros); macro environment = token '
     'macros + general macros + the macros of the registered profiles in order; valid iff some registered profile '
     'defining the property fullmatches) runs in lock-step; after every op validate / validateWithProfile()[0] on a '
     '34-pair battery, knownNames, profiles and propertiesByProfile() must equal the model. '
@@ -25,7 +25,7 @@ RULE = (
 ASSUMPTIONS = [
     'a profile name is never registered twice at the same time; a profile only uses macros it defines or built-in ones (sound domain stated in the design)',
     'the model re-implements macro expansion (iterated textual substitution wrapped in (?:...), fullmatch, re.I) from the Profiles docstrings',
-    'defaultProfiles is assigned names of currently registered profiles or None; the profiles it names may be removed afterwards',
+    'defaultProfiles is assigned None, a name or a list of names; a name need not be registered at that moment (it may be added later or have been removed: validateWithProfile documents that case)',
 ]
 
 CUSTOM = {
@@ -114,6 +114,9 @@ op = st.one_of(
     st.tuples(st.just('remove_unknown'), st.sampled_from(['nope', 'CSS Level 9', ''])),
     st.tuples(st.just('remove_all')),
     st.tuples(st.just('default'), st.one_of(st.none(), st.integers(0, 11), st.lists(st.integers(0, 11), min_size=1, max_size=3))),
+    # a name (or names) whether registered at that moment or not: it may be registered later, or have been removed
+    st.tuples(st.just('default'), st.one_of(st.sampled_from(sorted(CUSTOM) + BUILTIN_READD + [Profiles.CSS3_FONT_FACE, Profiles.CSS3_FONTS]),
+                                            st.lists(st.sampled_from(sorted(CUSTOM) + BUILTIN_READD), min_size=1, max_size=3))),
 )
 strategy = st.lists(op, min_size=1, max_size=9).map(lambda ops: {'ops': [list(o) for o in ops]})
 
@@ -242,12 +245,19 @@ def check(case, ctx):
             elif kind == 'default':
                 names = model.names()
                 before_verdicts = snapshot(reg)[0]
-                if o[1] is None or not names:
+                by_name = isinstance(o[1], str) or (isinstance(o[1], list) and all(isinstance(i, str) for i in o[1]))
+                if o[1] is None or (not names and not by_name):
                     val = None
                 elif isinstance(o[1], int):
                     val = names[o[1] % len(names)]
+                elif isinstance(o[1], str):
+                    val = o[1]
+                elif by_name:
+                    val = list(o[1])
                 else:
                     val = [names[i % len(names)] for i in o[1]]
+                if any(n not in names for n in ([val] if isinstance(val, str) else val or [])):
+                    ctx.event('default names an unregistered profile')
                 with lib('default'):
                     reg.defaultProfiles = val
                 model.default = None if val is None else ([val] if isinstance(val, str) else list(val))
